@@ -3,6 +3,7 @@ CONSTANTS MaxReq = 5
           Grants <- GrantsWide
           MaxLeases = 3
           MaxClock = 5
+          MaxReconnects = 0
           AppActsOnHeld = FALSE
           QSize = 0
 INVARIANT TypeOK
